@@ -151,7 +151,23 @@ def run_pair(case):
         return Result([], [], viol, tags, True, info=dict(trace=trace))
 
 
+def trace_oracle(summary):
+    viol = check_events(summary["events"], "client0", False)
+    for ent in summary["internal"]:
+        viol.append(("internal:" + ent[0], f"internal failure {ent}"))
+    return viol
+
+
+def trace_oracle_fifo(summary):
+    return check_events(summary["events"], "client0", True)
+
+
+EXTRA_TARGETS = ["wvsearch"]
+
+
 def run_case(case):
+    if case.get("kind") == "trace":
+        return mc.run_trace_case(case, trace_oracle_fifo if case.get("fifo") else trace_oracle)
     if case.get("kind") == "obs":
         return c18_observer.run_obs_case(case)
     if case.get("kind") == "pair":
@@ -173,6 +189,9 @@ def run_case(case):
 
 
 def shrink(case):
+    if case.get("kind") == "trace":
+        yield from mc.trace_shrink(case)
+        return
     if case.get("kind") == "obs":
         yield from c18_observer.shrink_obs(case)
         return
@@ -191,6 +210,10 @@ def shrink(case):
 
 def search(rng, seconds, seeds):
     t0 = time.time()
+    yield from mc.model_guided(trace_oracle)
+    for c, r in mc.model_guided(trace_oracle_fifo, modes=("fifo",)):
+        c["fifo"] = True
+        yield c, r
     for c in seeds:
         yield c, run_case(c)
     while time.time() - t0 < seconds:
